@@ -1105,6 +1105,12 @@ int get_precedence_or_default(const expression_t& expr)
     }
 }
 
+/** The declaration text of a quantifier binder's type; the const prefix the builder adds is not part of the syntax. */
+static std::string binder_type_declaration(const type_t& type)
+{
+    return (type.get_kind() == CONSTANT ? type.get(0) : type).declaration();
+}
+
 std::ostream& expression_t::print(std::ostream& os, bool old) const
 {
     const int precedence = get_precedence_or_default(*this);
@@ -1478,17 +1484,17 @@ std::ostream& expression_t::print(std::ostream& os, bool old) const
         break;
 
     case FORALL:
-        os << "forall(" << get(0).get_symbol().get_name() << ':' << get(0).get_symbol().get_type().str() << ") ";
+        os << "forall(" << get(0).get_symbol().get_name() << ':' << binder_type_declaration(get(0).get_symbol().get_type()) << ") ";
         get(1).print(os, old);
         break;
 
     case EXISTS:
-        os << "exists(" << get(0).get_symbol().get_name() << ':' << get(0).get_symbol().get_type().str() << ") ";
+        os << "exists(" << get(0).get_symbol().get_name() << ':' << binder_type_declaration(get(0).get_symbol().get_type()) << ") ";
         get(1).print(os, old);
         break;
 
     case SUM:
-        os << "sum(" << get(0).get_symbol().get_name() << ':' << get(0).get_symbol().get_type().str() << ") ";
+        os << "sum(" << get(0).get_symbol().get_name() << ':' << binder_type_declaration(get(0).get_symbol().get_type()) << ") ";
         get(1).print(os, old);
         break;
 
